@@ -79,22 +79,40 @@ class Topology(object):
     """subnets:  {subnet id: [node id, ...]}            every B/IP node incl. the BBMD of the subnet
        bbmd_of:  {subnet id: node id}                    subnets that have a BBMD
        bdt:      {bbmd node id: [peer bbmd node id,...]} the BBMD itself may or may not be in its own list
-       foreign:  set of node ids that are foreign devices (they sit on subnets without BBMD and are NOT in `subnets`)
+       foreign:  set of node ids that are foreign devices (they are NOT in `subnets`)
+       wire_of:  {foreign node id: subnet id}            foreign devices whose IP address lies on a subnet of the B/IP
+                                                         network (next to its BBMD and ordinary nodes); the others sit
+                                                         on subnets of their own
+       onehop:   set of BBMDs that are entered in the tables with a subnet mask (reached by directed broadcast)
 
     Whether a peer is reached by unicast (mask /32, the peer re-broadcasts on its subnet: "two-hop") or by a
     directed broadcast (subnet mask, "one-hop") makes no difference to *who* receives (J.4.5), only to the path.
+
+    A foreign device takes part in the B/IP network through the BBMD it is registered with and through nobody else
+    (J.5.2): it is not a member of the subnet it happens to sit on, so `subnets` does not list it and what other
+    stations broadcast on that wire is not addressed to it.  The path matters in one respect only: datagrams that
+    carry the registrar's own address as source and arrive at the device beside the copy from the foreign device
+    table cannot be told from that copy (`registrar_copies`).
     """
 
-    def __init__(self, subnets, bbmd_of, bdt, foreign):
+    def __init__(self, subnets, bbmd_of, bdt, foreign, wire_of=None, onehop=()):
         self.subnets = {s: list(n) for s, n in subnets.items()}
         self.bbmd_of = dict(bbmd_of)
         self.bdt = {b: list(p) for b, p in bdt.items()}
         self.foreign = set(foreign)
+        self.wire_of = dict(wire_of or {})
+        self.onehop = set(onehop)
         self.subnet_of = {}
         for s, nodes in self.subnets.items():
             for n in nodes:
                 self.subnet_of[n] = s
         self.home_subnet = {b: s for s, b in self.bbmd_of.items()}
+
+    def describe(self):
+        """plain comparable form"""
+        return (sorted((s, tuple(n)) for s, n in self.subnets.items()), sorted(self.bbmd_of.items()),
+                sorted((b, tuple(p)) for b, p in self.bdt.items()), sorted(self.foreign), sorted(self.wire_of.items()),
+                sorted(self.onehop))
 
     def all_nodes(self):
         out = set(self.foreign)
@@ -133,7 +151,7 @@ class Topology(object):
 
     def copies(self, origin, fdt):
         """Multiset version (how many copies the algebra produces per node): used to confirm that a layout is inside
-        the statement (every expected receiver exactly once)."""
+        the statement (every expected receiver exactly once, nothing back to the originator)."""
         from collections import Counter
         c = Counter()
         if origin in self.foreign:
@@ -156,7 +174,50 @@ class Topology(object):
             c.update(self.subnets[self.home_subnet[p]])
             c.update(fdt.get(p, ()))
         c.pop(origin, None)
+        # datagrams a foreign device on a wire of the B/IP network gets from its registrar beside the table copy
+        # (for the originator itself: its own broadcast coming back)
+        for f, extra in self.registrar_copies(origin, b, fdt).items():
+            c[f] += extra
         return c
+
+    def registrar_copies(self, origin, first, fdt):
+        """{foreign device on a wire: number of Forwarded-NPDUs with its registrar's address as source that reach its
+        interface *beside* the unicast copy from the foreign device table}.  `first` is the BBMD that starts the
+        distribution (the originator's own BBMD).  Two ways:
+          * the registrar is the BBMD of the device's own wire and puts a Forwarded-NPDU on that wire (it forwards a
+            Distribute-Broadcast-To-Network, or it is the second hop of a two-hop entry);
+          * the registrar starts the distribution and lists the BBMD of the device's wire with a subnet mask: its
+            directed broadcast arrives on the device's wire with the registrar as source.
+        A layout in which this is not zero is outside the statement: Annex J itself hands the device two copies (or its
+        own broadcast)."""
+        out = {}
+        for f, s in sorted(self.wire_of.items()):
+            w = self.bbmd_of.get(s)
+            n = 0
+            for r, fds in sorted(fdt.items()):
+                if f not in fds or w is None:
+                    continue
+                if r == w:
+                    if r == first:
+                        # forwards on its own wire only what did not start there as an Original-Broadcast
+                        n += 1 if origin in self.foreign else 0
+                    elif r in self.bdt.get(first, ()) and r not in self.onehop and r in self.bdt.get(r, ()):
+                        n += 1
+                elif r == first and w in self.bdt.get(r, ()) and w in self.onehop:
+                    n += 1
+            if n:
+                out[f] = n
+        return out
+
+    def inside_statement(self, fdt):
+        """True when Annex J hands every receiver exactly one copy and the originator none, for every originator"""
+        for origin in sorted(self.all_nodes()):
+            c = self.copies(origin, fdt)
+            if c is None:
+                continue
+            if c.get(origin) or any(v != 1 for v in c.values()):
+                return False
+        return True
 
     def is_full(self):
         """Every subnet has a BBMD and every BBMD lists all the others (the first sentence of the statement)."""
@@ -198,6 +259,11 @@ class Lifetime(object):
         self.ttl = ttl
         self.t_unreg = None
         self.last_reg = None        # the device has to send one at once
+        # the application moved the registration to another BBMD: what the other BBMDs acknowledged earlier obliges
+        # nobody any more (they may keep their entry until its own TTL + grace is over, as after an unregistration)
+        for b, r in self.rec.items():
+            if b != bbmd:
+                r[3] = True
 
     def app_unregister(self, t):
         self.mode = "unregistered"
@@ -272,7 +338,12 @@ class Lifetime(object):
             return "mustnot"
         if self.mode == "unregistered":
             return "mustnot"        # "after unregister nothing is handed to its network layer"
-        return self._window(t, self.bbmd)
+        w = self._window(t, self.bbmd)
+        if w == "mustnot" and any(b != self.bbmd and self._window(t, b) != "mustnot" for b in self.rec):
+            # the device moved its registration here from a BBMD whose entry has not run out yet: the statement speaks
+            # of one registration, it does not decide whether that older entry still serves the device
+            return "may"
+        return w
 
     def listed(self, t, bbmd):
         return self._window(t, bbmd)
